@@ -26,7 +26,7 @@ func init() {
 		p := args[0].(*Value)
 		w.nilCheck(fr, p)
 		st := &(*p).(Struct)[0]
-		w.yield(t, "Mutex.Lock")
+		w.syncYield(t, p, "Mutex.Lock")
 		w.block(t, "Mutex.Lock", func() bool { return w.i32(*st) == 0 })
 		w.storeLeaf(st, w.tt.BV(32, 1))
 		return nil
@@ -35,7 +35,7 @@ func init() {
 		p := args[0].(*Value)
 		w.nilCheck(fr, p)
 		st := &(*p).(Struct)[0]
-		w.yield(t, "Mutex.TryLock")
+		w.syncYield(t, p, "Mutex.TryLock")
 		if w.i32(*st) == 0 {
 			w.storeLeaf(st, w.tt.BV(32, 1))
 			return w.tt.T
@@ -67,7 +67,7 @@ func init() {
 		p := args[0].(*Value)
 		w.nilCheck(fr, p)
 		ws, rd, ww := rw(p)
-		w.yield(t, "RWMutex.RLock")
+		w.syncYield(t, p, "RWMutex.RLock")
 		w.block(t, "RWMutex.RLock", func() bool { return w.i32(*ws) == 0 && w.i32(*ww) == 0 })
 		w.storeLeaf(rd, w.tt.BV(32, uint64(w.i32(*rd)+1)))
 		return nil
@@ -76,7 +76,7 @@ func init() {
 		p := args[0].(*Value)
 		w.nilCheck(fr, p)
 		ws, rd, ww := rw(p)
-		w.yield(t, "RWMutex.TryRLock")
+		w.syncYield(t, p, "RWMutex.TryRLock")
 		if w.i32(*ws) == 0 && w.i32(*ww) == 0 {
 			w.storeLeaf(rd, w.tt.BV(32, uint64(w.i32(*rd)+1)))
 			return w.tt.T
@@ -97,7 +97,7 @@ func init() {
 		p := args[0].(*Value)
 		w.nilCheck(fr, p)
 		ws, rd, ww := rw(p)
-		w.yield(t, "RWMutex.Lock")
+		w.syncYield(t, p, "RWMutex.Lock")
 		if !(w.i32(*ws) == 0 && w.i32(*rd) == 0) {
 			w.storeLeaf(ww, w.tt.BV(32, uint64(w.i32(*ww)+1)))
 			w.block(t, "RWMutex.Lock", func() bool { return w.i32(*ws) == 0 && w.i32(*rd) == 0 })
@@ -110,7 +110,7 @@ func init() {
 		p := args[0].(*Value)
 		w.nilCheck(fr, p)
 		ws, rd, _ := rw(p)
-		w.yield(t, "RWMutex.TryLock")
+		w.syncYield(t, p, "RWMutex.TryLock")
 		if w.i32(*ws) == 0 && w.i32(*rd) == 0 {
 			w.storeLeaf(ws, w.tt.BV(32, 1))
 			return w.tt.T
@@ -473,4 +473,64 @@ func (w *World) sleep(t *Thread, fr *frame, d *Term) {
 
 func durationString(d int64) string {
 	return fmt.Sprint(durationT(d))
+}
+
+// syncYield is the scheduling point before an acquire-type operation on a
+// synchronisation object.  The first thread to touch an object does not need one:
+// a schedule in which another thread gets there first is reached from this
+// thread's previous scheduling point (all operations in between are on objects
+// that have their own scheduling points once shared).
+func (w *World) syncYield(t *Thread, obj interface{}, what string) {
+	var m map[interface{}]map[int]bool
+	if v, ok := w.ext["synctouch"]; ok {
+		m = v.(map[interface{}]map[int]bool)
+	} else {
+		m = map[interface{}]map[int]bool{}
+		w.ext["synctouch"] = m
+	}
+	set := m[obj]
+	if set == nil {
+		set = map[int]bool{}
+		m[obj] = set
+	}
+	shared := false
+	for id := range set {
+		if id != t.id {
+			shared = true
+		}
+	}
+	set[t.id] = true
+	if _, sel := w.ext["selectshared"]; sel {
+		shared = true
+		delete(w.ext, "selectshared")
+	}
+	if !shared {
+		if _, full := w.ext["fullsched"]; !full {
+			return
+		}
+	}
+	w.yield(t, what)
+}
+
+// touchOnly records that t uses obj, and forces the next syncYield of this
+// operation to be a real scheduling point if somebody else uses it too.
+func (w *World) touchOnly(t *Thread, obj interface{}) {
+	var m map[interface{}]map[int]bool
+	if v, ok := w.ext["synctouch"]; ok {
+		m = v.(map[interface{}]map[int]bool)
+	} else {
+		m = map[interface{}]map[int]bool{}
+		w.ext["synctouch"] = m
+	}
+	set := m[obj]
+	if set == nil {
+		set = map[int]bool{}
+		m[obj] = set
+	}
+	for id := range set {
+		if id != t.id {
+			w.ext["selectshared"] = true
+		}
+	}
+	set[t.id] = true
 }
